@@ -73,9 +73,9 @@ def gen(rng, tier):
         elif kind == 'filter':
             nc = rng.randint(2, 4) if tiny else rng.randint(1, 4)
             data = [[round(rng.uniform(-9, 9), 3) for _ in range(nc)] for _ in range(n)]
-            yield {'k': kind, 'data': data, 'lims': lims, 'sigma': rng.choice([1.0, 1.5, 2.0, 4.0]), 'prelims': pre}
+            yield {'k': kind, 'data': data, 'lims': lims, 'sigma': rng.choice([1.0, 1.5, 2.0, 4.0, 1.125, 1.625, 2.125, 3.125]), 'prelims': pre}
         else:
-            labs1 = rng.choice([[1, 2, 3], [1, 2, 3], [1, 5, 65537], [-32768, 0, 32768], [7, 7 + 2**16, 7 + 2**17]])
+            labs1 = rng.choice([[1, 2, 3], [1, 2, 3], [1, 5, 65537], [-32768, 0, 32768], [7, 7 + 2**16, 7 + 2**17], [-1, 1, 2], [-1, 0, 3], [-5, -1, 4]])
             t1 = G.traj(rng, labs1, n, sticky=0.7)
             t2 = [labs1.index(v) + 1 if rng.random() < 0.8 else rng.choice([4, 5, 6]) for v in t1]
             yield {'k': kind, 't1': t1, 't2': t2, 'method': rng.choice(['symmetric', 'directed'])}
